@@ -8,7 +8,7 @@ from typing import Dict, List, Set
 
 from ..framework import Check
 from ..defs_common import FAM, regen_or_report
-from ..defs_emit_common import (COQ_HEADER, DIFF_NAMES, F, build_corpus, closure_case, closure_files, closure_model_ok, coq_case,
+from ..defs_emit_common import (COQ_HEADER, DIFF_NAMES, F, build_corpus, closure_case, cyclic_closures, closure_files, closure_model_ok, coq_case,
                                 construct_classes, diagnose, names_of_model, observation, read_m, run_emit, source_classes)
 
 THEOREMS = ["C15_total", "C15_total_closure", "C15_empty_file_ex", "C15_total_ex", "C15_total_div_ex", "C15_scoped_py_partial", "C15_scoped_c_partial",
@@ -87,6 +87,7 @@ def extra_closures(natives: List[str]) -> List[dict]:
         dict(path="root.yaml", imports=[1], items=[("msg", "M1", 5, F(("a", "int32", None)))]),
         dict(path="notes.yaml", imports=[], items=[], text="# nothing defined here yet\n\n# message_defs:\n")],
         auto_pad=True, import_coredefs=False), coq=True))
+    out += cyclic_closures()        # import cycles: legal, every file read once, all four outputs must load
     out.append(dict(tag="constant-named-like-field", cl=dict(files=[dict(path="root.yaml", imports=[], items=[
         ("const", "count", ("lit", 3)), ("struct", "S1", F(("count", "int32", None), ("b", "int32", ("ref", "count")))),
         ("struct", "RTMA_MSG_HEADER", F(("msg_type", "int32", None)))])], auto_pad=True, import_coredefs=False), coq=False))
@@ -249,6 +250,10 @@ def run(chk: Check):
                 and res["exc"] != "AttributeError":
             # (an AttributeError is keyed below) - any other outcome than a clean parse is wrong as well
             chk.spec_failure("empty-file:not-accepted", f"a closure with an empty definition file is not accepted: {res['exc']}: {res['msg'][:160]}", replay)
+        if c.get("expect") == "accept" and not res["ok"] and (res["is_parser_error"] or res["exc"] in ("AssertionError", "FileNotFoundError")):
+            # well-formed by construction (import cycles): a clean rejection is as wrong as an internal error
+            chk.spec_failure("rejected-wellformed:" + c["tag"].split(":")[0] + ":" + str(res["exc"]),
+                             f"a well-formed closure ({c['tag']}) is rejected: {res['exc']}: {res['msg'][:200]}", replay)
         if not res["ok"]:
             dist["rejected:" + str(res["exc"])] = dist.get("rejected:" + str(res["exc"]), 0) + 1
             if not res["is_parser_error"] and res["exc"] not in ("AssertionError", "FileNotFoundError"):
